@@ -146,6 +146,30 @@ ROUND5 = {
 for _k, _v in ROUND5.items():
     CHECKS[_k]["text"] += _v
 
+# round 6
+ROUND6 = {
+ "C01": " Round 6: a 15-micron metal-coated bead (finite field, intensity, hologram); detector annotations and the merged optics come back on hologram, field and intensity.",
+ "C02": " Round 6: both solvers with the radial component; the one-sphere cluster is compared with Lorenz-Mie at every size class the cluster solver accepts (beyond its compiled order: an open finding).",
+ "C03": " Round 6: one theory object for consecutive, nearly identical particles.",
+ "C04": " Round 6: scale exponents to +-6 (microns to metres and picometres).",
+ "C06": " Round 6: channels that differ in polarisation only, for Mie, MieLens, AberratedMieLens.",
+ "C07": " Round 6: sparse subsets of 10^4-pixel images; Lens(Mie) among the replayed theories (point lists at two heights).",
+ "C08": " Round 6: half of the classes on raised / lowered detector planes; positional construction of AberratedMieLens.",
+ "C09": " Round 6: a weak member next to a strongly coupled pair under all listing orders, both solvers.",
+ "C10": " Round 6: whole-number angles as ints and floats; size class astronomical (size parameter 3e9).",
+ "C11": " Round 6: two builds from one model share no mutable container with each other or with the model's maps.",
+ "C12": " Round 6: scaling exactly 0; a second, user-written constraint; per-channel noise given to the model.",
+ "C13": " Round 6: a fitted parameter that starts at exactly 0; loaded results examined with their file moved away.",
+ "C14": " Round 6: NumPy numbers as operands in turn with python numbers; powers with unsupported operands must raise.",
+ "C15": " Round 6: a model whose per-channel optics are labelled arrays.",
+ "C16": " Round 6: the plural TIFF writer (save_images) in the replay.",
+ "C17": " Round 6: images whose axes do not start at 0 (band-limited sampling); optics given with the call.",
+ "C19": " Round 6: the same numbers read as degrees and radians in turn; rigid clusters moved along / about single axes.",
+ "C20": " Round 6: overlaps and near misses of 1e-6 and 1e-9 of the radii, in microns and metres.",
+}
+for _k, _v in ROUND6.items():
+    CHECKS[_k]["text"] += _v
+
 NOT_APPLICABLE = []
 
 
